@@ -166,6 +166,16 @@ def run(ctx):
         out = outcome(lambda: parser.parse(t), dumper)
         muts.append(({'entry': entry, 'text': t, 'mutated': True}, out, dumps([S('parse'), S(entry), t]), None, 'mutated'))
     cases += muts
+    # channel-name spellings, well- and ill-formed, in every event position
+    nchan = 0
+    for name in ['/a/b_c1', '~x', 'a/b', 'a1', 'a_b', 'a/', 'a//b', '/', '~', '~/x', '/1a', 'a/1', 'A', '_a', 'a.b', 'a-b', '/a/b/c/d', 'x/y_/z9', '~a/b', '/A_/b',
+                 'a/b/', '//a', '~~a', 'a~b', 'some', 'no', 'as', 'within', 'or', 'globally', 's', 'ms', 'a/some', '/no']:
+        for tpl in ('globally: no %s', 'globally: %s as A causes b {@A.x > 0}', 'after %s: some (%s or b)', 'until %s {x > 0}: c requires %s within 1 s',
+                    'globally: (b or %s) forbids d'):
+            t = tpl.replace('%s', name)
+            out = outcome(lambda: pp.parse(t), dump_property)
+            nchan += out[0] == 'ok'
+            cases.append(({'entry': 'property', 'text': t, 'family': 'channel-names'}, out, dumps([S('parse'), S('property'), t]), None, 'mutated'))
     # token soups over the reserved words: where a reserved word is a name and where it is not (the contextual lexer), accept / reject side
     from soup import soups
     nsoup = 0
@@ -215,7 +225,7 @@ def run(ctx):
         'samples': samples,
         'violations': violations,
         'disagreements': disagreements,
-        'coverage_extra': dict(stats, generator_rejects=rejects, reserved_word_soups_accepted=nsoup),
+        'coverage_extra': dict(stats, generator_rejects=rejects, reserved_word_soups_accepted=nsoup, channel_name_texts_accepted=nchan),
     }
 
 
